@@ -35,4 +35,12 @@ CHECKS = {
         text='Bounded model checking of the scope stack on the real code: every nesting of depth 3 (quick) / 4 (thorough) over 10 entry kinds (4 of them invalid), each level left normally or by an exception, with a scoped or unscoped configurable call innermost; current_scope()/current_scope_str() inside and after every block equal the stack-automaton reference.',
         note=X_NOTE + ' Thread half of C09 (privacy of the stack under interleavings) is not claimed by this check yet.',
         technique='CrossHair/z3 exhaustive path exploration of config_scope/_ScopeManager over symbolic entry kinds (lazy choice per level)'),
+    'C11': dict(
+        text='Inductive single-step bounded model checking on the real code: from an arbitrary subset of existing bindings (symbolic values) one attempted binding over 15 (configurable, parameter) cases x 7 API paths is executed; rejected attempts raise ValueError and leave the binding store identical (and a later call never receives the name), accepted ones change exactly one key, proved for all integer values.',
+        note=X_NOTE + ' The binding store is snapshotted through the private gin.config._CONFIG (config_str() would stringify symbolic values).',
+        technique='CrossHair/z3 symbolic execution of ParsedBindingKey.parse, bind_parameter, parse_config statement application and finalize hook merging'),
+    'C20': dict(
+        text='Inductive single-step bounded model checking of clear_config on the real code: the pre-state is any combination of 7 history ingredients (bindings, import, operative record, finalized, singleton, failed parse, failed bind) x 5 constant sets incl. interactive-mode definitions with overlapping suffixes; after clear_config the config string, operative string, lock, queries, probe calls, singleton cache and constants equal the pristine baseline.',
+        note=X_NOTE,
+        technique='CrossHair/z3 exhaustive path exploration of clear_config from symbolic pre-states built through the public API'),
 }
